@@ -527,6 +527,8 @@ class SigmaCorrelationRule(SigmaRuleBase, ProcessingItemTrackingMixin):
         source: SigmaRuleLocation | None = None,
     ) -> Self:
         kwargs, errors = super().from_dict_common_params(rule, collect_errors, source)
+        if not isinstance(rule, dict):  # error was recorded above
+            rule = dict()
         correlation_rule = rule.get("correlation", dict())
         if not isinstance(correlation_rule, dict):
             errors.append(
